@@ -45,6 +45,8 @@ def multi_statement(seed, i):
             lambda: "const v%d = %s;" % (j, op()),
             lambda: "if (%s) {\n    y = %s;\n  }" % (op(), op()),
             lambda: "this.v%d = %s;" % (j, rng.choice(["this.opts?.prefix.trim()", "this?.p.substring(1)", "'lit'?.trim()", "this.a?.b.concat('x', 'y')", op()])),
+            # a chain on a literal receiver is left alone, the call that continues it is instrumented
+            lambda: rng.choice(["'abcdefghijkl'?.slice().substring(k);", "x = \"lit\"?.trim().concat(k)?.call();", "this.w = 'lit'?.p.q.trim();", "y = 'lit'?.slice(1).trim().concat(a, b);"]),
             lambda: "// comment %d" % j,
             lambda: "",
         ])())
@@ -63,7 +65,7 @@ def multi_statement(seed, i):
 
 
 def cases(O):
-    n = 400 if O.tier == "quick" else 3000
+    n = 400 if O.tier == "quick" else 9000
     opts = {"reparse": True}
     cs = F.regress_cases(opts=opts) + F.snippet_cases(opts=opts)
     gen = F.generated_cases(O.seed, n, "c09", cfg_fn=F.config_variants, opts=opts) + E.catalogue_cases(O.seed, n, "c09", cfg_fn=F.config_variants, opts=opts)
